@@ -59,6 +59,22 @@ def runto_case(args):
         b = sp.proc(t3.Proc("mid", kind="cattok", ins=[("a", [(a, "o")])], outs=[("o", "{i:a}.mid")]))
         sp.proc(t3.Proc("other", kind="cat", ins=[("a", [(b, "o")])], outs=[("o", "{i:a}.other")]))
         sp.runto = [rng.choice([a, b])]
+    elif i % 5 == 2:
+        # process names that contain regular-expression metacharacters, beside processes whose names the pattern would match
+        sp = t3.Spec(maxtasks=rng.randint(1, 3), bufsize=rng.choice([1, 2, 128]))
+        paths = ["m%d.txt" % j for j in range(rng.randint(1, 3))]
+        for p in paths:
+            sp.files[p] = p + "\n"
+        s = sp.src("src", paths)
+        fam = rng.choice([["filter.v2", "filter_v2", "filterxv2"], ["align+", "align", "alignn"], ["cnt[ab]", "cnta", "cntb"], ["x|y", "x", "y"], ["st(e)p", "step", "st(e)p2"]])
+        idx = []
+        for k, name in enumerate(fam):
+            idx.append(sp.proc(t3.Proc(name, kind="cattok", tok="tok%d" % k, ins=[("a", [(s, "out")])], outs=[("o", "{i:a}.out%d" % k)])))
+        sp.runto = [idx[0]]
+        sp.runto_mode = "N"
+        r = t3.success_case(sp, timeout=60)
+        r["kind"] = "runto-N-metachar-names"
+        return r
     else:
         sp = t3.gen_workflow(rng, maxlen=3, nproc=rng.randint(2, 6))
         idxs = [k for k, n in enumerate(sp.nodes) if n[0] == "PROC"]
@@ -219,7 +235,7 @@ def run(rep, tier, seed):
     t3.report_t3(rep, MODULE, proved, results, "T3 unconnected ports / RunTo")
     rep.cov["evaluations"] = len(results)
     rep.cov["distinct_nontrivial"] = len({r["spec"] for r in results})
-    rep.cov["rule"] = "unconnected: a random workflow in which one in-port loses its connection or one extra parameter port is created and never connected -- must exit non-zero, execute no command, create no file; RunTo: random workflows run to 1-2 random target processes by name, by regular expression or by process value, plus FromStr feeders longer than the buffer upstream of the target -- executed tasks and files must be exactly those of the upstream closure as computed by the reference evaluator; drain: a streaming out-port that nobody consumes or whose consumer RunTo cuts off -- the run must complete and leave no FIFO; a dangling file out-port and an unread parameter source together, one of them longer than the buffer after the other has closed -- the run must complete; lock-step: a component emitting a parameter and a file alternately, the parameters unconsumed or cut off by RunTo, more pairs than the buffer holds -- all tasks of the process that is run must execute; component: a CommandToParams component whose command leaves a mark, outside the closure of a RunTo target / in a refused workflow / in a fully wired one -- the mark must appear only in the last; every case distinct"
+    rep.cov["rule"] = "unconnected: a random workflow in which one in-port loses its connection or one extra parameter port is created and never connected -- must exit non-zero, execute no command, create no file; RunTo: process names containing regular-expression metacharacters beside names such a pattern would match; random workflows run to 1-2 random target processes by name, by regular expression or by process value, plus FromStr feeders longer than the buffer upstream of the target -- executed tasks and files must be exactly those of the upstream closure as computed by the reference evaluator; drain: a streaming out-port that nobody consumes or whose consumer RunTo cuts off -- the run must complete and leave no FIFO; a dangling file out-port and an unread parameter source together, one of them longer than the buffer after the other has closed -- the run must complete; lock-step: a component emitting a parameter and a file alternately, the parameters unconsumed or cut off by RunTo, more pairs than the buffer holds -- all tasks of the process that is run must execute; component: a CommandToParams component whose command leaves a mark, outside the closure of a RunTo target / in a refused workflow / in a fully wired one -- the mark must appear only in the last; every case distinct"
     rep.cov["samples"] = [results[0]["spec"], results[-1]["spec"]]
     kinds = {}
     for r in results:
